@@ -47,9 +47,7 @@ Lemma float_hooks pf b : hooks_total (float_fm pf b).
 Proof.
   unfold hooks_total, float_fm; cbn. repeat split; try discriminate.
   - intros f [= <-] i l. unfold float_from_value. rewrite map_err_panic.
-    destruct l; try reflexivity.
-    + unfold float_from_string. destruct (pf b s); reflexivity.
-    + destruct (pf b digits); reflexivity.
+    destruct l; try reflexivity; try (unfold float_from_string; destruct (pf b _); reflexivity).
   - intros f [= <-] s. unfold float_from_string. destruct (pf b s); reflexivity.
 Qed.
 
